@@ -207,9 +207,11 @@ impl Selector {
 
         // deal with the timer list
         #[cfg(feature = "io_timeout")]
+        let start = now();
+        #[cfg(feature = "io_timeout")]
         let next_expire = single_selector
             .timer_list
-            .schedule_timer(now(), &timeout_handler);
+            .schedule_timer(start, &timeout_handler);
         #[cfg(not(feature = "io_timeout"))]
         let next_expire = None;
 
@@ -219,6 +221,11 @@ impl Selector {
         // instead of sleeping on it until the next io event or the next io timer
         #[cfg(feature = "io_timeout")]
         scheduler.run_queued_tasks(id);
+
+        // `next_expire` is relative to `start`, but the timeout handler and the tasks above
+        // may have run for a while since then. don't sleep that time again
+        #[cfg(feature = "io_timeout")]
+        let next_expire = next_expire.map(|t: u64| t.saturating_sub(now().saturating_sub(start)));
 
         Ok(next_expire)
     }
